@@ -472,6 +472,11 @@ pub fn replay(specs: &[PropSpec], path: &str) -> i32 {
         println!("VIOLATION property={} replay={}", prop, path);
         return 1;
     }
+    if r1.status == Status::StepCap {
+        println!("replay: nontermination :: the job is still running after {} scheduling steps", r1.steps);
+        println!("VIOLATION property={} replay={}", prop, path);
+        return 1;
+    }
     if s.sometimes.iter().any(|(x, _, _)| x == sig) {
         // a reachability obligation is a statement about the whole scenario: explore it again
         let rep = explore(s, 0, 1, None);
